@@ -1331,34 +1331,19 @@ class Reaction(Object):
 
         context = get_context(self)
         if context and reversibly:
-            if combine:
-                # Just subtract the metabolites that were added
-                context(
-                    partial(
-                        self.subtract_metabolites,
-                        added,
-                        combine=True,
-                        reversibly=False,
-                    )
+            # Put the old coefficients back. Subtracting what was added is not exact
+            # in floating point (0.1 + 0.2 - 0.2 != 0.1) and can leave a metabolite
+            # behind with a coefficient of 1e-17. Metabolites that were not part of
+            # the reaction are reset to 0, i.e., removed again.
+            mets_to_reset = {met: old_coefficients.get(met, 0) for met in added}
+            context(
+                partial(
+                    self.add_metabolites,
+                    mets_to_reset,
+                    combine=False,
+                    reversibly=False,
                 )
-            else:
-                # Reset them with add_metabolites
-                # Metabolites that were not part of the reaction are reset to 0,
-                # i.e., removed again.
-                old_by_id = {met.id: coef for met, coef in old_coefficients.items()}
-                mets_to_reset = {
-                    str(key): old_by_id.get(str(key), 0)
-                    for key in metabolites_to_add.keys()
-                }
-
-                context(
-                    partial(
-                        self.add_metabolites,
-                        mets_to_reset,
-                        combine=False,
-                        reversibly=False,
-                    )
-                )
+            )
 
     def subtract_metabolites(
         self,
